@@ -87,17 +87,17 @@ def fill(claim, na):
     claim(
         "C14",
         "proof",
-        "Lean 4 refinement proof: for every sequence of get_esf requests and cache drops the cache model answers each request with the object a fresh construction would give (induction over the operation list with a cache invariant; key injectivity lemma) + trace correspondence with the real StructureFunction cache + bit-exact real-run histories",
-        "history_independence: any operation list (any permutation/superset of requests, duplicates, TMC inner requests, cross-section requests, drops anywhere) returns, for each request, an object built from its own observable, point and TMC flag; the sorted cache key determines the point whatever the dict's insertion order (the pre-fix insertion-order key is proved non-injective). The model's hit/miss trace and returned objects are compared with the real cache on random histories (incl. delegation between structure functions); the evaluation plan of Runner.get_result (stable Q2 sort, drops, placement by original index) is compared with an instrumented real Runner; real permuted/extended/repeated runs are compared bit for bit with single-point runs. Memo tables in general (Memo.run_eq_map): a table filled with compute(i) under key(i) answers every history with compute of the request iff the key determines the value, and a key that forgets a dependency has a two-request history with a wrong answer (Memo.incomplete_key_is_wrong); whether the keys of the code's memo tables (scale-variation operators, projectors, weights, couplings) are complete is observed: a sequence of fourteen different configurations sharing kinematics in one process against each run alone in a fresh process, bit for bit.",
-        TB + "An ESF object's result is assumed to be a deterministic function of what it was constructed with; completeness of the keys of the other memo tables is a hypothesis of the memo theorem, observed by the fresh-process comparison (hidden state in numba/LeProHQ/scipy is outside the model).",
+        "Lean 4 refinement proof: for every sequence of get_esf requests and cache drops the cache model answers each request with the object a fresh construction would give (induction over the operation list with a cache invariant; key injectivity lemma) + census of every memo table and of the process-wide mutable state of src/yadism, regenerated from the syntax trees each run and decided on in Lean + trace correspondence with the real StructureFunction cache + bit-exact real-run histories",
+        "history_independence: any operation list (any permutation/superset of requests, duplicates, TMC inner requests, cross-section requests, drops anywhere) returns, for each request, an object built from its own observable, point and TMC flag; the sorted cache key determines the point whatever the dict's insertion order (the pre-fix insertion-order key is proved non-injective). The model's hit/miss trace and returned objects are compared with the real cache on random histories (incl. delegation between structure functions); the evaluation plan of Runner.get_result (stable Q2 sort, drops, placement by original index) is compared with an instrumented real Runner; real permuted/extended/repeated runs are compared bit for bit with single-point runs. Memo tables in general (Memo.run_eq_map): a table filled with compute(i) under key(i) answers every history with compute of the request iff the key determines the value, and a key that forgets a dependency has a two-request history with a wrong answer (Memo.incomplete_key_is_wrong); the memo tables of the code base are a table regenerated from the source (five sites: get_esf cache, the computed flag of an ESF, the scale-variation operator table, Runner.get_sf, the N3LO grid table): for each, whatever the miss branch reads is part of the key or an attribute assigned in __init__ only (memo_keys_cover_deps), the list of tables and keys is pinned (memo_census), a covered table is transparent for every history (covered_site_is_transparent), and the only process-wide mutable state any function changes is the N3LO grid table (shared_state_census). Observed besides: a sequence of fourteen different configurations sharing kinematics in one process against each run alone in a fresh process, bit for bit.",
+        TB + "An ESF object's result is assumed to be a deterministic function of what it was constructed with; the memo census is syntactic (a key that mentions a name is taken to determine it; stores into an object's attributes from outside its class are not seen); hidden state in numba/LeProHQ/scipy is outside the model and only observed by the fresh-process comparison.",
         "DESIGN.md 6/C14",
     )
     claim(
         "C20",
         "proof",
-        "Lean 4 theorems on an association-list model of compatibility.update (frame property: non-owned keys keep the very same reference) + exact correspondence with the real update on random cards + deep comparison of the caller's cards around real runs",
-        "Proved: every key update does not own (incl. nested kinematics lists, grids, CKM lists, held as opaque references) comes out with exactly the value it went in with, on both cards, for every scheme/target/optional-key combination (update_frame, nested_objects_shared); and update_idempotent: upgrading an already upgraded pair of cards returns exactly the same pair, for every card (every step is the identity on its own output and no later step touches what an earlier one reads or writes). Observed on the real code: exact correspondence of the real update with the model on random cards; cards deep-equal before/after construction, get_result and a second construction; idempotence on every random card; output echoes cards, grid, pids, projectile.",
-        TB + "The model is functional, so 'no write through the caller's dict' is an observation on the real function, not a theorem; other modules mutating a card would only be seen by the real-run comparison.",
+        "Lean 4 theorems on an association-list model of compatibility.update (frame property, idempotence) and on a heap model of Python objects (soundness of a static store check for every execution) applied to the effect lists regenerated each run from the syntax trees of compatibility.update, CouplingConstants.from_dict, Runner.__init__ and the load methods + exact correspondence with the real update on random cards + deep comparison of the caller's cards around real runs",
+        "Proved: every key update does not own (incl. nested kinematics lists, grids, CKM lists, held as opaque references) comes out with exactly the value it went in with, on both cards, for every scheme/target/optional-key combination (update_frame, nested_objects_shared); and update_idempotent: upgrading an already upgraded pair of cards returns exactly the same pair, for every card (every step is the identity on its own output and no later step touches what an earlier one reads or writes). No write into the caller's objects: on the heap model (objects at locations, .copy() allocates, nested objects shared) a program all of whose stores go at depth 0 into objects it created itself leaves every pre-existing object untouched for every choice of branches, values and aliases (Heap.safe_preserves); the regenerated effect lists of update (callees inlined), from_dict, Runner.__init__ (update, from_dict, log.setup inlined), StructureFunction.load and CrossSection.load pass the check (update_leaves_callers_objects, from_dict_…, runner_init_…, load_…), update hands the cards to no other code, and the callees that receive the cards elsewhere are a decided table (escapes_known). Observed on the real code: exact correspondence of the real update with the model on random cards; cards deep-equal before/after construction, get_result and a second construction; idempotence on every random card; output echoes cards, grid, pids, projectile.",
+        TB + "The store classification of the effect translator is syntactic (mutating methods by name; class instantiation and displays return new objects; self is not one of the caller's objects) and refuses what it does not know; what the callees listed in escapes_known (eko's grid and basis, the ESF/EXS constructors, numpy, logging) do with the caller's nested objects is only seen by the real-run comparison.",
         "DESIGN.md 6/C20",
     )
     claim(
